@@ -11,8 +11,20 @@ from .. import import_fsic, probes, ref_solver, spans
 from ..kernel import canon
 from . import solver as S
 
-SPANS = ['range', 'list_int', 'list_str', 'list_mixed']
+SPANS = ['range', 'list_int', 'list_str', 'list_mixed', 'list_numstr']
 IDS = ['A', 'B', 'C', 'D']
+# id pools (each in sorted order, so that insertion order survives any key-sorted serialisation); the later pools hold ids
+# that differ only by case, and an unknown id may then be a near miss of several of them
+ID_POOLS = [IDS, IDS, IDS, ['UK', 'US', 'uk', 'us'], ['UK', 'Uk', 'uK', 'uk'], ['M1', 'm1', 'm2', 'm3']]
+
+
+def _unknown_id(rng, ids):
+    cands = ['nope']
+    for s_ in ids:
+        for v in (s_.lower(), s_.upper(), s_.swapcase(), s_.capitalize(), s_ + '_'):
+            if v not in ids:
+                cands.append(v)
+    return rng.choice(cands)
 
 
 def generate(rng, idx, tier, variant):
@@ -20,7 +32,8 @@ def generate(rng, idx, tier, variant):
     n = rng.randint(1, 7)
     sp = {'type': rng.choice(SPANS), 'n': n, 'origin': rng.choice([0, 1, 5])}
     subs = {}
-    for sid in IDS[:n_sub]:
+    pool = rng.choice(ID_POOLS)
+    for sid in pool[:n_sub]:
         ms = S.gen_spec(rng, 'solver', tier)
         ms['span'] = sp
         ms['lags'] = rng.choice([0, 0, 1, 2])
@@ -36,7 +49,7 @@ def generate(rng, idx, tier, variant):
     spec = {'span': sp, 'subs': subs, 'dtype': rng.choice(['float'] * 6 + ['float32', 'int']), 'own': {'endo': ['L0'], 'exo': ['LX'], 'check': own_check}, 'init': {'L0': [rng.choice(S.DYADS) for _ in range(n)], 'LX': [rng.choice(S.DYADS) for _ in range(n)]}}
     ops = []
     if rng.random() < 0.12 and n_sub >= 2:
-        ops.append({'op': 'construct-unequal-spans', 'which': rng.choice(IDS[1:n_sub]), 'how': rng.choice(['longer', 'shifted', 'other-labels', 'permuted', 'repeated', 'array-partial', 'array-partial'])})
+        ops.append({'op': 'construct-unequal-spans', 'which': rng.choice(pool[1:n_sub]), 'how': rng.choice(['longer', 'shifted', 'other-labels', 'permuted', 'repeated', 'array-partial', 'array-partial'])})
     for _ in range(rng.choice([1, 1, 2, 3])):
         opts = S.gen_opts(rng, False)
         opts['errors'] = 'raise'
@@ -56,7 +69,7 @@ def generate(rng, idx, tier, variant):
             select = list(ids)
             rng.shuffle(select)
         else:
-            select = rng.sample(ids, rng.randint(0, len(ids))) + ['nope']
+            select = rng.sample(ids, rng.randint(0, len(ids))) + [_unknown_id(rng, ids)]
             rng.shuffle(select)
         plans = {}
         for sid, ms in subs.items():
